@@ -10,6 +10,16 @@ the modelled sub-panners (`diverge_gains_sum_one`, `diverge_gains_nonneg`, `spli
 (Cartesian point objects: no hypothesis on the panner left) and `render_power_polar_extent` (polar extent/depth
 skeleton on top of unit-power point-source and spread answers).
 
+Round 2: `tables_ok`/`tables_nonempty` (`decide +kernel` over `Gen/C01_Tables.lean`, regenerated from the real
+objects on every run) discharge the table hypotheses for the ten BS.2051 layouts inside Lean: `downmix_layouts`
+(H2 for every exclusion mask, incl. totality), `allo_unit_power_layouts`, `allo_total_layouts`,
+`render_power_allocentric_layouts`, `render_power_polar_layouts`, `renderFull_allocentric_layouts`.  The position
+pipeline is inside the model (`renderFull`: positionOffset → coord_trans → screen scale → edge lock → channel lock
+→ diverge positions → extent pan → render; the three handlers and the extent panner are function parameters):
+`renderFull_power`, `renderFull_polar`; `divergePositions_length`, `diverge_cart_in_cube`; the polar handler's
+distance/depth logic `polarHandle_isPolarRow`, `amountSpread_range`, `extentMod_range`; the `allo_extent.get_gains`
+skeleton `alloExtent_nonneg`, `alloExtent_unit`, `alloExtent_unit_of_size`; `alloHandle_total` (any scalar).
+
 What is NOT proved — the full property
   C01_full: ∀ ObjectTypeMetadata within the ADM value ranges, ∀ supported layouts (nominal or admissible real
             positions), `GainCalc(layout).render(meta)` is finite, non-negative, zero on LFE, and has power
@@ -26,6 +36,10 @@ arithmetic.  (a)-(c), (e) are only searched on the real code (harness/c01.py).
 import Earverif.Proofs.C01Real
 import Earverif.Proofs.C01Sub
 import Earverif.Proofs.C01Allo
+import Earverif.Proofs.C01Tables
+import Earverif.Proofs.C01Ext
+import Earverif.Proofs.C01Pipe
+import Earverif.Gen.C01_Tables
 
 namespace Earverif.GainCalc
 
@@ -413,6 +427,246 @@ theorem C01_partial :
   · exact balancePan_unit
   · exact fun n st px py pz r hw h => allo_unit_power n st hw px py pz r h
 
+/-! ## the position pipeline inside the model: `renderFull`, `polarHandle` -/
+
+/-- **`PolarExtentHandler.handle` as modelled** (end distances, `extent_mod`, `ammount_spread`, one
+    `calc_pv_spread` or the RMS of two) produces a `PolarRow` whenever the point-source answer `p` and every
+    normalised spread answer `s w h` are unit-power vectors of length `n` — for every position, width, height, depth. -/
+theorem polarHandle_isPolarRow (n : Nat) (p : List ℝ) (s : ℝ → ℝ → List ℝ) (position : V3 ℝ) (width height depth : ℝ)
+    (hp : p.length = n ∧ sumSq p = 1) (hs : ∀ w h, (s w h).length = n ∧ sumSq (s w h) = 1) :
+    PolarRow n (polarHandle n p s position width height depth) := by
+  simp only [polarHandle, polarExtents]
+  rcases polarDistances_cases (norm3 position) depth with h | ⟨d1, d2, h, _, _⟩
+  · rw [h]
+    simp only [List.map_cons, List.map_nil, polarCombine]
+    exact PolarRow.single _ p _ (amountSpread_range _ _).1 (amountSpread_range _ _).2 hp.1 (hs _ _).1 hp.2 (hs _ _).2
+  · rw [h]
+    simp only [List.map_cons, List.map_nil, polarCombine]
+    exact PolarRow.depth _ _ p _ p _ (amountSpread_range _ _).1 (amountSpread_range _ _).2 (amountSpread_range _ _).1
+      (amountSpread_range _ _).2 hp.1 (hs _ _).1 hp.1 (hs _ _).1 hp.2 (hs _ _).2 hp.2 (hs _ _).2
+
+/-- the shapes of the zone data and of the extent panner's answers (length `m`) that fit `n` non-LFE channels -/
+def PathShape (n m : Nat) : ZonePath ℝ → Prop
+  | .polar D => m = n ∧ D.length = n ∧ ∀ r ∈ D, r.length = n
+  | .cartesian ex => ex.length = n ∧ m = countFalse ex
+
+/-- **The whole of `render`, position pipeline included.**  Whatever the screen-scale, edge-lock and channel-lock
+    handlers do to the position (arbitrary functions), if the extent panner of the path answers *every* position
+    with a non-negative vector of the right length and power in `[lo, hi]`, the zone data are well-shaped and
+    stochastic, and the block's values are in range, then every block the code does not reject satisfies the
+    invariant.  The shape condition "one gain vector per diverged position" is proved, not assumed. -/
+theorem renderFull_power (lo hi : ℝ) (n m : Nat) (o : Oracles ℝ) (path : ZonePath ℝ) (isLfe : List Bool) (b : Block ℝ)
+    (r : List ℝ × List ℝ) (h : renderFull n o path isLfe b = some r)
+    (hpan : ∀ pos, (o.extentPan pos).length = m ∧ Nonneg (o.extentPan pos) ∧ lo ≤ sumSq (o.extentPan pos) ∧
+      sumSq (o.extentPan pos) ≤ hi)
+    (hlfe : countFalse isLfe = n) (hshape : PathShape n m path) (H2 : PathOk path)
+    (hv : ∀ y, b.divValue = some y → 0 ≤ y ∧ y ≤ 1) (hx0 : 0 ≤ b.diffuse) (hx1 : b.diffuse ≤ 1) (hbg : 0 ≤ b.gain)
+    (hog : 0 ≤ b.objectGain) :
+    let target : ℝ := (b.gain * (if b.mute then 0 else b.objectGain)) ^ 2
+    Nonneg r.1 ∧ Nonneg r.2 ∧ (∀ i : Nat, isLfe[i]? = some true → r.1[i]? = some 0 ∧ r.2[i]? = some 0) ∧
+    lo * target ≤ power r ∧ power r ≤ hi * target := by
+  simp only [renderFull] at h
+  split at h
+  · exact absurd h (by simp)
+  · rename_i c _
+    simp only [Option.some.injEq] at h
+    subst h
+    refine C01_partial.1 lo hi n path b.divValue _ b.gain b.objectGain b.mute isLfe b.diffuse ?_ hv ?_ H2 hx0 hx1 hbg hog
+    · have hlen := divergePositions_length b.cartesian
+        (o.channelLock (o.edgeLock (o.screenScale (coordTrans b.cartesian c)))) b.divValue b.azimuthRange b.positionRange b.v2
+      cases path with
+      | polar D =>
+        obtain ⟨hm, hD, hDr⟩ := hshape
+        simp only [shapesOk, Bool.and_eq_true, beq_iff_eq, List.all_eq_true, List.length_map]
+        refine ⟨⟨hlen.symm, hlfe⟩, ⟨?_, hD⟩, hDr⟩
+        intro r' hr'
+        simp only [List.mem_map] at hr'
+        obtain ⟨q, _, rfl⟩ := hr'
+        rw [(hpan q).1, hm]
+      | cartesian ex =>
+        obtain ⟨hex, hm⟩ := hshape
+        simp only [shapesOk, Bool.and_eq_true, beq_iff_eq, List.all_eq_true, List.length_map]
+        refine ⟨⟨hlen.symm, hlfe⟩, hex, ?_⟩
+        intro r' hr'
+        simp only [List.mem_map] at hr'
+        obtain ⟨q, _, rfl⟩ := hr'
+        rw [(hpan q).1, hm]
+    · intro r' hr'
+      simp only [List.mem_map] at hr'
+      obtain ⟨q, _, rfl⟩ := hr'
+      exact (hpan q).2
+
+theorem PolarRow.length_eq {n : Nat} {r : List ℝ} (h : PolarRow n r) : r.length = n := by
+  cases h with
+  | single a p s h0 h1 hp hs _ _ => exact length_calcPvSpread n a p s hp hs
+  | depth a a' p s p' s' _ _ _ _ hp hs hp' hs' _ _ _ _ =>
+    simp [depthCombine, length_calcPvSpread n a p s hp hs, length_calcPvSpread n a' p' s' hp' hs']
+
+/-- the polar extent handler as the oracle of `renderFull`: H1 (with the 1e-10 slack) follows from the two panners' contracts -/
+theorem polarHandle_contract (n : Nat) (p : V3 ℝ → List ℝ) (s : V3 ℝ → ℝ → ℝ → List ℝ) (width height depth : ℝ)
+    (hp : ∀ pos, (p pos).length = n ∧ sumSq (p pos) = 1) (hs : ∀ pos w h, (s pos w h).length = n ∧ sumSq (s pos w h) = 1)
+    (pos : V3 ℝ) :
+    (polarHandle n (p pos) (s pos) pos width height depth).length = n ∧
+    Nonneg (polarHandle n (p pos) (s pos) pos width height depth) ∧
+    1 - 1 / 10000000000 ≤ sumSq (polarHandle n (p pos) (s pos) pos width height depth) ∧
+    sumSq (polarHandle n (p pos) (s pos) pos width height depth) ≤ 1 := by
+  have hrow := polarHandle_isPolarRow n (p pos) (s pos) pos width height depth (hp pos) (hs pos)
+  have hb := polar_rows_between n [polarHandle n (p pos) (s pos) pos width height depth] (by
+    intro r hr; rw [List.mem_singleton.mp hr]; exact hrow) (polarHandle n (p pos) (s pos) pos width height depth)
+    (List.mem_singleton.mpr rfl)
+  exact ⟨hrow.length_eq, hb.1, hb.2.1, hb.2.2⟩
+
+/-- **Polar path end to end over the model**: `renderFull` with `PolarExtentHandler.handle` as its extent panner
+    (point-source and spreading panners answering with unit-power vectors of length `n`), any position handlers,
+    a stochastic `n × n` zone downmix: power in `[(1 − 1e-10), 1] · (gain · object gain)²`, non-negative, LFE zero. -/
+theorem renderFull_polar (n : Nat) (ss el cl : V3 ℝ → V3 ℝ) (p : V3 ℝ → List ℝ) (s : V3 ℝ → ℝ → ℝ → List ℝ)
+    (width height depth : ℝ) (D : List (List ℝ)) (isLfe : List Bool) (b : Block ℝ) (r : List ℝ × List ℝ)
+    (h : renderFull n ⟨ss, el, cl, fun pos => polarHandle n (p pos) (s pos) pos width height depth⟩ (.polar D) isLfe b = some r)
+    (hp : ∀ pos, (p pos).length = n ∧ sumSq (p pos) = 1) (hs : ∀ pos w h, (s pos w h).length = n ∧ sumSq (s pos w h) = 1)
+    (hlfe : countFalse isLfe = n) (hD : D.length = n ∧ ∀ r ∈ D, r.length = n) (H2 : Stochastic D)
+    (hv : ∀ y, b.divValue = some y → 0 ≤ y ∧ y ≤ 1) (hx0 : 0 ≤ b.diffuse) (hx1 : b.diffuse ≤ 1) (hbg : 0 ≤ b.gain)
+    (hog : 0 ≤ b.objectGain) :
+    let target : ℝ := (b.gain * (if b.mute then 0 else b.objectGain)) ^ 2
+    Nonneg r.1 ∧ Nonneg r.2 ∧ (∀ i : Nat, isLfe[i]? = some true → r.1[i]? = some 0 ∧ r.2[i]? = some 0) ∧
+    (1 - 1 / 10000000000) * target ≤ power r ∧ power r ≤ 1 * target :=
+  renderFull_power _ 1 n n _ (.polar D) isLfe b r h (fun pos => polarHandle_contract n p s width height depth hp hs pos)
+    hlfe ⟨rfl, hD.1, hD.2⟩ H2 hv hx0 hx1 hbg hog
+
+/-! ## the ten BS.2051 layouts: hypotheses discharged on the regenerated tables
+
+`Gen/C01_Tables.lean` is rewritten by `harness/c01.py` from the real objects on every run (zone priority groups,
+allocentric speaker tree with exact rational coordinates, `is_lfe`), so the `decide +kernel` below re-checks what
+the code says now. -/
+
+open Earverif.Gen.C01 in
+set_option maxRecDepth 100000 in
+/-- every regenerated table passes the decidable checks: zone groups duplicate-free and covering every channel
+    exactly once, allocentric grid well-formed, `n` = number of non-LFE channels -/
+theorem tables_ok :
+    layouts.all (fun L => groupsOk L.n L.groups && treeOk L.n (ratTree L.tree) && (countFalse L.isLfe == L.n)) = true := by
+  decide +kernel
+
+open Earverif.Gen.C01 in
+theorem layouts_nonempty : layouts.length = 10 := by decide +kernel
+
+open Earverif.Gen.C01 in
+set_option maxRecDepth 100000 in
+theorem tables_nonempty : layouts.all (fun L => treeNonempty (ratTree L.tree)) = true := by decide +kernel
+
+open Earverif.Gen.C01 in
+/-- **H2 for the ten layouts, every exclusion mask**: `downmix_for_excluded` always returns an `n × n` matrix
+    (never its `assert False`) that is non-negative with rows summing to one. -/
+theorem downmix_layouts (L : LayoutTable) (hL : L ∈ layouts) (excluded : List Bool) (hl : excluded.length = L.n) :
+    ∃ D : List (List ℝ), downmixForExcluded L.groups excluded = some D ∧ Stochastic D ∧ D.length = L.n ∧
+      ∀ r ∈ D, r.length = L.n := by
+  have h := List.all_eq_true.mp tables_ok L hL
+  simp only [Bool.and_eq_true] at h
+  obtain ⟨⟨hg, _⟩, _⟩ := h
+  obtain ⟨D, hD⟩ := downmix_total L.n L.groups hg excluded hl
+  have hs := downmix_shape L.groups excluded D hD
+  have hlen : L.groups.length = L.n := by
+    simp only [groupsOk, Bool.and_eq_true, beq_iff_eq] at hg
+    exact hg.1
+  rw [hlen] at hs
+  exact ⟨D, hD, downmix_stochastic L.groups excluded D (groups_nodup_of_ok L.n L.groups hg) hD, hs.1, hs.2⟩
+
+open Earverif.Gen.C01 in
+/-- **H1 for the allocentric point-source panner on the ten layouts' grids**, every position -/
+theorem allo_unit_power_layouts (L : LayoutTable) (hL : L ∈ layouts) (px py pz : ℝ) (r : List ℝ)
+    (h : alloHandle L.n (realTree (ratTree L.tree)) px py pz = some r) : Nonneg r ∧ sumSq r = 1 ∧ r.length = L.n := by
+  have hk := List.all_eq_true.mp tables_ok L hL
+  simp only [Bool.and_eq_true] at hk
+  have hw := treeWF_of_ok L.n _ hk.1.2
+  refine ⟨(allo_unit_power L.n _ hw px py pz r h).1, (allo_unit_power L.n _ hw px py pz r h).2, ?_⟩
+  simp only [alloHandle, Option.map_eq_some_iff] at h
+  obtain ⟨ws, _, rfl⟩ := h
+  simp [applyWrites, length_foldl_set]
+
+open Earverif.Gen.C01 in
+/-- **The allocentric point-source panner on the ten layouts' grids is total with unit power**: for every
+    position it returns (no IndexError) a non-negative vector of length `n` with Σ² = 1. -/
+theorem allo_total_layouts (L : LayoutTable) (hL : L ∈ layouts) (px py pz : ℝ) :
+    ∃ r, alloHandle L.n (realTree (ratTree L.tree)) px py pz = some r ∧ Nonneg r ∧ sumSq r = 1 ∧ r.length = L.n := by
+  have hne := treeNonempty_real _ (List.all_eq_true.mp tables_nonempty L hL)
+  obtain ⟨r, hr⟩ := alloHandle_total L.n (realTree (ratTree L.tree)) px py pz hne
+  exact ⟨r, hr, allo_unit_power_layouts L hL px py pz r hr⟩
+
+theorem countFalse_replicate (n : Nat) : countFalse (List.replicate n false) = n := by
+  induction n with
+  | zero => rfl
+  | succ n ih => simp [List.replicate_succ, countFalse, ih]
+
+open Earverif.Gen.C01 in
+/-- **Cartesian point objects on the ten layouts (no zone exclusion)**: with the regenerated grid, LFE mask and
+    channel count, whatever positions the earlier transforms produced, the full invariant holds; the only
+    remaining hypotheses are the ADM value ranges and that one gain vector was produced per diverged position. -/
+theorem render_power_allocentric_layouts (L : LayoutTable) (hL : L ∈ layouts) (v : Option ℝ) (g : List (List ℝ))
+    (bg og : ℝ) (mute : Bool) (x : ℝ)
+    (hg : ∀ r ∈ g, ∃ px py pz, alloHandle L.n (realTree (ratTree L.tree)) px py pz = some r)
+    (hlen : (divergeGains v).length = g.length)
+    (hv : ∀ y, v = some y → 0 ≤ y ∧ y ≤ 1) (H3 : 0 ≤ x ∧ x ≤ 1) (hbg : 0 ≤ bg) (hog : 0 ≤ og) :
+    let r : List ℝ × List ℝ := render L.n (.cartesian (List.replicate L.n false)) (divergeGains v) g bg og mute L.isLfe x
+    Nonneg r.1 ∧ Nonneg r.2 ∧ (∀ i : Nat, L.isLfe[i]? = some true → r.1[i]? = some 0 ∧ r.2[i]? = some 0) ∧
+    power r = (bg * (if mute then 0 else og)) ^ 2 := by
+  have hk := List.all_eq_true.mp tables_ok L hL
+  simp only [Bool.and_eq_true, beq_iff_eq] at hk
+  have hw := treeWF_of_ok L.n _ hk.1.2
+  refine render_power_allocentric L.n L.n _ hw _ v g bg og mute L.isLfe x hg ?_ hv H3 hbg hog
+  simp only [shapesOk, Bool.and_eq_true, beq_iff_eq, List.all_eq_true, List.length_replicate, countFalse_replicate]
+  refine ⟨⟨hlen, hk.2⟩, trivial, ?_⟩
+  intro r hr
+  obtain ⟨px, py, pz, h⟩ := hg r hr
+  exact (allo_unit_power_layouts L hL px py pz r h).2.2
+
+open Earverif.Gen.C01 in
+/-- **Cartesian point objects end to end on the ten layouts (no zone exclusion)**: `renderFull` with the
+    allocentric point-source panner on the regenerated grid as extent panner and arbitrary position handlers.
+    No hypothesis about any panner is left: every block that is not rejected satisfies the full invariant. -/
+theorem renderFull_allocentric_layouts (L : LayoutTable) (hL : L ∈ layouts) (ss el cl : V3 ℝ → V3 ℝ) (b : Block ℝ)
+    (r : List ℝ × List ℝ)
+    (h : renderFull L.n ⟨ss, el, cl, fun pos => (alloHandle L.n (realTree (ratTree L.tree)) pos.1 pos.2.1 pos.2.2).getD []⟩
+      (.cartesian (List.replicate L.n false)) L.isLfe b = some r)
+    (hv : ∀ y, b.divValue = some y → 0 ≤ y ∧ y ≤ 1) (hx0 : 0 ≤ b.diffuse) (hx1 : b.diffuse ≤ 1) (hbg : 0 ≤ b.gain)
+    (hog : 0 ≤ b.objectGain) :
+    Nonneg r.1 ∧ Nonneg r.2 ∧ (∀ i : Nat, L.isLfe[i]? = some true → r.1[i]? = some 0 ∧ r.2[i]? = some 0) ∧
+    power r = (b.gain * (if b.mute then 0 else b.objectGain)) ^ 2 := by
+  have hk := List.all_eq_true.mp tables_ok L hL
+  simp only [Bool.and_eq_true, beq_iff_eq] at hk
+  have hpan : ∀ pos : V3 ℝ,
+      ((alloHandle L.n (realTree (ratTree L.tree)) pos.1 pos.2.1 pos.2.2).getD []).length = L.n ∧
+      Nonneg ((alloHandle L.n (realTree (ratTree L.tree)) pos.1 pos.2.1 pos.2.2).getD []) ∧
+      1 ≤ sumSq ((alloHandle L.n (realTree (ratTree L.tree)) pos.1 pos.2.1 pos.2.2).getD []) ∧
+      sumSq ((alloHandle L.n (realTree (ratTree L.tree)) pos.1 pos.2.1 pos.2.2).getD []) ≤ 1 := by
+    intro pos
+    obtain ⟨g, hg, hn, hu, hl⟩ := allo_total_layouts L hL pos.1 pos.2.1 pos.2.2
+    rw [hg]
+    exact ⟨hl, hn, hu.ge, hu.le⟩
+  have := renderFull_power 1 1 L.n L.n _ (.cartesian (List.replicate L.n false)) L.isLfe b r h hpan hk.2
+    ⟨List.length_replicate, (countFalse_replicate L.n).symm⟩ trivial hv hx0 hx1 hbg hog
+  simp only [one_mul] at this
+  exact ⟨this.1, this.2.1, this.2.2.1, le_antisymm this.2.2.2.2 this.2.2.2.1⟩
+
+open Earverif.Gen.C01 in
+/-- **Polar path on the ten layouts, every zone-exclusion mask**: H2 is discharged by the regenerated groups; what
+    remains is H1 (per-position vectors of length `n`, non-negative, power in `[lo, hi]`) and the value ranges. -/
+theorem render_power_polar_layouts (L : LayoutTable) (hL : L ∈ layouts) (excluded : List Bool)
+    (hl : excluded.length = L.n) (lo hi : ℝ) (v : Option ℝ) (g : List (List ℝ)) (bg og : ℝ) (mute : Bool) (x : ℝ)
+    (hlen : (divergeGains v).length = g.length) (hgl : ∀ r ∈ g, r.length = L.n) (H1 : RowsBetween lo hi g)
+    (hv : ∀ y, v = some y → 0 ≤ y ∧ y ≤ 1) (H3 : 0 ≤ x ∧ x ≤ 1) (hbg : 0 ≤ bg) (hog : 0 ≤ og) :
+    ∃ D : List (List ℝ), downmixForExcluded L.groups excluded = some D ∧
+      let r : List ℝ × List ℝ := render L.n (.polar D) (divergeGains v) g bg og mute L.isLfe x
+      let target : ℝ := (bg * (if mute then 0 else og)) ^ 2
+      Nonneg r.1 ∧ Nonneg r.2 ∧ (∀ i : Nat, L.isLfe[i]? = some true → r.1[i]? = some 0 ∧ r.2[i]? = some 0) ∧
+      lo * target ≤ power r ∧ power r ≤ hi * target := by
+  obtain ⟨D, hD, hst, hDl, hDr⟩ := downmix_layouts L hL excluded hl
+  have hk := List.all_eq_true.mp tables_ok L hL
+  simp only [Bool.and_eq_true, beq_iff_eq] at hk
+  refine ⟨D, hD, ?_⟩
+  have hs : shapesOk L.n (.polar D) (divergeGains v) g L.isLfe = true := by
+    simp only [shapesOk, Bool.and_eq_true, beq_iff_eq, List.all_eq_true]
+    exact ⟨⟨hlen, hk.2⟩, ⟨hgl, hDl⟩, hDr⟩
+  exact C01_partial.1 lo hi L.n (.polar D) v g bg og mute L.isLfe x hs hv H1 hst H3.1 H3.2 hbg hog
+
 /-! ## non-vacuity: concrete inputs that satisfy the hypotheses -/
 
 /-- 0+5+0-like: 5 non-LFE channels + 1 LFE, polar path with the identity downmix, divergence 1/2 with three
@@ -498,5 +752,11 @@ example :
 /-- inputs satisfying the hypotheses of `pvSpread_power` (both branches active) -/
 example : sumSq ([1, 0] : List ℝ) = 1 ∧ sumSq ([3 / 5, 4 / 5] : List ℝ) = 1 ∧ (0 : ℝ) ≤ 1 / 2 ∧ (1 / 2 : ℝ) ≤ 1 := by
   refine ⟨by norm_num, by norm_num, by norm_num, by norm_num⟩
+
+/-- `renderFull` accepts every block without a positionOffset (so the hypothesis `renderFull … = some r` of
+    `renderFull_power` is satisfiable), here with identity handlers and a constant unit-power panner -/
+example : ∃ r, renderFull 2 ⟨id, id, id, fun _ => [1, 0]⟩ (.cartesian [false, false]) [false, false]
+    (⟨true, (0, 0, 0), none, none, none, none, false, 1, 0, 1, false⟩ : Block ℝ) = some r := by
+  simp [renderFull, applyOffset]
 
 end Earverif.GainCalc
